@@ -150,7 +150,6 @@ func ZZ_C22_appropriation() {
 	zzApplyAndRollback(c, tx)
 }
 
-
 // ZZ_C22_updateproposals: the per-block proposal update (Committee.
 // updateProposals -> ProposalManager.updateProposals) on one proposal that is
 // Registered or CRAgreed, of type normal, receive-custom-ID, reserve-custom-ID,
@@ -159,95 +158,8 @@ func ZZ_C22_appropriation() {
 // ended, approved or not, vetoed or not, inside or outside an election
 // period; a second, VoterAgreed proposal is the target of close / change-owner.
 func ZZ_C22_updateproposals() {
-	cfg := zzCRConfig()
-	cfg.CRConfiguration.ProposalCRVotingPeriod = 10
-	cfg.CRConfiguration.ProposalPublicVotingPeriod = 10
-	cfg.CRConfiguration.CRAgreementCount = 1
-	cfg.CRConfiguration.VoterRejectPercentage = 10
-	c := zzCommittee(cfg)
-	c.CirculationAmount = 1000
-	c.CRCCommitteeUsedAmount = zzCRAmount("committeeUsedAmount")
-	c.NeedRecordProposalResult = nd.Bool("needRecordBefore")
-	if nd.Bool("resultsBefore") {
-		c.PartProposalResults = []payload.ProposalResult{{ProposalHash: common.Uint256{0x44}, Result: true}}
-	}
-	status := Registered
-	if nd.Bool("crAgreed") {
-		status = CRAgreed
-	}
-	p := zzProposal(c, 2, status)
-	p.RegisterHeight = zzH - 10
-	p.VoteStartHeight = zzH - 10
-	if nd.Bool("periodNotOver") {
-		p.RegisterHeight, p.VoteStartHeight = zzH-9, zzH-9
-	}
-	if nd.Bool("approved") {
-		p.CRVotes[common.Uint168{0x67, 0x31}] = payload.Approve
-	}
-	if nd.Bool("vetoed") {
-		p.VotersRejectAmount = 2000
-	} else {
-		p.VotersRejectAmount = 0
-	}
-	// the target of close-proposal / change-proposal-owner
-	target := &ProposalState{Status: VoterAgreed, CRVotes: map[common.Uint168]payload.VoteResult{}, WithdrawnBudgets: map[uint8]common.Fixed64{},
-		WithdrawableBudgets: map[uint8]common.Fixed64{0: 5}, BudgetsStatus: map[uint8]BudgetStatus{0: Withdrawable, 1: Unfinished},
-		ProposalOwner: zzCRKey(8), Recipient: common.Uint168{0x21, 0x50}}
-	target.Proposal.Budgets = []payload.Budget{{Stage: 0, Type: payload.Imprest, Amount: 5}, {Stage: 1, Type: payload.FinalPayment, Amount: zzCRAmount("targetFinal")}}
-	th := common.Uint256{0x99, 0x02}
-	target.Proposal.Hash = th
-	c.manager.Proposals[th] = target
+	c, p, target, status, inElection := zzUpdateScenario()
 	m := c.manager
-	switch nd.Choose("proposalType", 7) {
-	case 0:
-	case 1:
-		p.Proposal.ProposalType = payload.ReceiveCustomID
-		p.Proposal.ReceivedCustomIDList = []string{"bb"}
-		m.PendingReceivedCustomIDMap["bb"] = struct{}{}
-		m.PendingReceivedCustomIDMap["aa"] = struct{}{}
-		m.ReceivedCustomIDLists = []string{"dd"}
-	case 2:
-		p.Proposal.ProposalType = payload.ReserveCustomID
-		p.Proposal.ReservedCustomIDList = []string{"rr"}
-		m.ReservedCustomID = true
-		if nd.Bool("listsReservedBefore") {
-			m.ReservedCustomIDLists = []string{"qq"}
-		}
-	case 3:
-		p.Proposal.ProposalType = payload.RegisterSideChain
-		p.Proposal.SideChainName = "s1"
-		p.Proposal.MagicNumber = 11
-		p.Proposal.GenesisHash = common.Uint256{0x61}
-		m.RegisteredSideChainNames = []string{"s0", "s1", "s2"}
-		m.RegisteredMagicNumbers = []uint32{10, 11, 12}
-		m.RegisteredGenesisHashes = []common.Uint256{{0x60}, {0x61}, {0x62}}
-		if nd.Bool("sideChainRegisteredAtThisHeight") {
-			m.RegisteredSideChainPayloadInfo[zzH] = map[common.Uint256]payload.SideChainInfo{{0x31}: {SideChainName: "s9"}}
-		}
-	case 4:
-		p.Proposal.ProposalType = payload.SecretaryGeneral
-		p.Proposal.SecretaryGeneralPublicKey = zzCRKey(9)
-		m.SecretaryGeneralPublicKey = "0011"
-	case 5:
-		p.Proposal.ProposalType = payload.CloseProposal
-		p.Proposal.TargetProposalHash = th
-	default:
-		p.Proposal.ProposalType = payload.ChangeProposalOwner
-		p.Proposal.TargetProposalHash = th
-		p.Proposal.NewOwnerPublicKey = zzCRKey(10)
-		if nd.Bool("newRecipient") {
-			p.Proposal.NewRecipient = common.Uint168{0x21, 0x51}
-		}
-	}
-	stake := common.Uint168{0x54, 1}
-	if nd.Bool("publicVotesCast") {
-		c.state.UsedCRCProposalVotes[stake] = []payload.VotesWithLockTime{{Candidate: zzPH.Bytes(), Votes: 7, LockTime: 9}}
-		if nd.Bool("alsoForAnotherProposal") {
-			c.state.UsedCRCProposalVotes[stake] = append(c.state.UsedCRCProposalVotes[stake], payload.VotesWithLockTime{Candidate: th.Bytes(), Votes: 8, LockTime: 9})
-		}
-	}
-	inElection := nd.Bool("inElectionPeriod")
-
 	st := c.state.StateKeyFrame.Snapshot()
 	kf := c.KeyFrame.Snapshot()
 	results := append([]payload.ProposalResult{}, c.PartProposalResults...)
